@@ -600,6 +600,25 @@ fn sub_slice(what: &str, s: &[u8], b: &[u8], off: usize, len: usize) -> Verdict 
     Ok(())
 }
 
+/// a per-input number that picks the positions the iterator-protocol checks probe
+fn salt_of(b: &[u8]) -> u64 {
+    b.iter().fold(0xcbf2_9ce4_8422_2325u64, |h, &x| (h ^ x as u64).wrapping_mul(0x0000_0100_0000_01b3))
+}
+
+type RbFields = (u32, u8, u32, u32, u32, u32, u32);
+
+fn rb_fields(rb: &ReportBlock) -> RbFields {
+    (
+        rb.ssrc(),
+        rb.fraction_lost(),
+        rb.cumulative_lost(),
+        rb.extended_sequence_number(),
+        rb.interarrival_jitter(),
+        rb.last_sender_report_timestamp(),
+        rb.delay_since_last_sender_report_timestamp(),
+    )
+}
+
 fn c09_blocks(name: &str, b: &[u8], base: usize, count: usize, blocks: &[ReportBlock]) -> Verdict {
     ensure!(blocks.len() == count, format!("C09:{name}:report-block-count"), "{} blocks yielded, count field says {count}; input {}", blocks.len(), hex(b));
     for (i, rb) in blocks.iter().enumerate() {
@@ -647,6 +666,9 @@ pub(crate) fn c09_oracle(c: &Bytes, st: &mut Stats) -> Verdict {
             step("SenderReport::report_blocks");
             let blocks: Vec<ReportBlock> = p.report_blocks().collect();
             c09_blocks("SenderReport", b, 28, h.count as usize, &blocks)?;
+            // the same blocks whichever way the iterator is driven (nth, skip, step_by, count, last, a clone)
+            let want: Vec<RbFields> = blocks.iter().map(rb_fields).collect();
+            super::common::iter_protocol("SenderReport::report_blocks", "C09", || p.report_blocks(), |rb| rb_fields(&rb), &want, salt_of(b), false)?;
         }
         step("ReceiverReport::parse");
         if let Ok(p) = ReceiverReport::parse(b) {
@@ -658,6 +680,8 @@ pub(crate) fn c09_oracle(c: &Bytes, st: &mut Stats) -> Verdict {
             step("ReceiverReport::report_blocks");
             let blocks: Vec<ReportBlock> = p.report_blocks().collect();
             c09_blocks("ReceiverReport", b, 8, h.count as usize, &blocks)?;
+            let want: Vec<RbFields> = blocks.iter().map(rb_fields).collect();
+            super::common::iter_protocol("ReceiverReport::report_blocks", "C09", || p.report_blocks(), |rb| rb_fields(&rb), &want, salt_of(b), false)?;
         }
         step("ReportBlock::parse");
         if let Ok(rb) = ReportBlock::parse(b) {
@@ -675,6 +699,18 @@ pub(crate) fn c09_oracle(c: &Bytes, st: &mut Stats) -> Verdict {
             let got = (p.ssrc(), p.name(), p.subtype());
             let want = (be32(b, 4), [b[8], b[9], b[10], b[11]], h.count);
             ensure!(got == want, "C09:App:field", "accessors {got:?}, wire {want:?}; input {}", hex(b));
+            // the name as a string is made of the name field's bytes: up to the first NUL (what the code documents),
+            // or with only the trailing NULs dropped, or all four - never bytes spliced together across a NUL
+            step("App::get_name_string");
+            let name = [b[8], b[9], b[10], b[11]];
+            let got = p.get_name_string().ok();
+            let first_nul = name.iter().position(|&x| x == 0).unwrap_or(4);
+            let trimmed = 4 - name.iter().rev().take_while(|&&x| x == 0).count();
+            let cands = [first_nul, trimmed, 4].map(|n| String::from_utf8(name[..n].to_vec()).ok());
+            ensure!(cands.contains(&got), "C09:App:name-string", "get_name_string() = {got:?} for the name bytes {name:?}; input {}", hex(b));
+            if first_nul < trimmed {
+                st.label("APP name with an interior NUL");
+            }
             step("App::data");
             let d = p.data();
             if pad % 4 == 0 && pad + 12 <= b.len() {
@@ -694,6 +730,7 @@ pub(crate) fn c09_oracle(c: &Bytes, st: &mut Stats) -> Verdict {
             let got: Vec<u32> = p.ssrcs().collect();
             let want: Vec<u32> = (0..c).map(|i| be32(b, 4 + 4 * i)).collect();
             ensure!(got == want, "C09:Bye:sources", "ssrcs() {got:?}, wire {want:?}; input {}", hex(b));
+            super::common::iter_protocol("Bye::ssrcs", "C09", || p.ssrcs(), |x| x, &want, salt_of(b), false)?;
             step("Bye::reason");
             let reason = p.reason();
             let off = 4 + 4 * c;
@@ -995,6 +1032,10 @@ fn big_tilings() -> Vec<BigTiling> {
         vec![(200, 6, 3000), (202, 0, 1), (203, 0, 1)],
         vec![(203, 0, 16384)],                   // exactly 65536 bytes
         vec![(201, 1, 8191), (203, 0, 1)],       // just below 64 KiB: 65532 bytes
+        vec![(203, 0, 65535)],                   // the number of tiles around 2^16
+        vec![(203, 0, 65536)],
+        vec![(203, 0, 65537)],
+        vec![(203, 0, 65535), (201, 1, 3)],
     ];
     for runs in shapes {
         for tail in [0u8, 1, 3] {
